@@ -255,6 +255,67 @@ func markDeleting(ctx context.Context, c client.Client, o client.Object) {
 	}
 }
 
+// ---------------------------------------------------------------- decision-irrelevant fields
+
+// decor varies the fields the reapers read only for logging / metrics (pods bound to the node, the
+// nodepool / capacity-type labels, terminationGracePeriod, Status.NodeName, a failing pod list).
+// None of them may influence a decision, so the model does not see them; they rotate with the case id.
+type decor struct {
+	Pods       int    // 0 | 1 (a plain pod) | 2 (plus a DaemonSet pod)
+	TGP        string // "" (nil) | "0s" | "30s"
+	Labels     bool   // nodepool + capacity-type labels present
+	NoNodeName bool   // Status.NodeName empty
+	PodF       bool   // the pod list issued after the Delete fails
+}
+
+func decorFor(c *kit.Ctx) decor {
+	id := c.NextID()
+	d := decor{Pods: id % 3, TGP: []string{"", "0s", "", "30s"}[id%4], Labels: id%2 == 1, NoNodeName: id%5 == 4, PodF: id%7 == 6}
+	c.Count(fmt.Sprintf("decor:pods=%d", d.Pods))
+	c.Count("decor:terminationGracePeriod=" + d.TGP)
+	c.Count(fmt.Sprintf("decor:metric-labels=%v", d.Labels))
+	c.Count(fmt.Sprintf("decor:nodeName-empty=%v", d.NoNodeName))
+	c.Count(fmt.Sprintf("decor:pod-list-fails=%v", d.PodF))
+	return d
+}
+
+func (d decor) rules(rules []rule) []rule {
+	if d.PodF {
+		rules = append(rules, rule{"list", "Pod", "", -1, "err"})
+	}
+	return rules
+}
+
+func (d decor) claim(nc *v1.NodeClaim) {
+	if d.Labels {
+		if nc.Labels == nil {
+			nc.Labels = map[string]string{}
+		}
+		nc.Labels[v1.CapacityTypeLabelKey] = "spot"
+	}
+	switch d.TGP {
+	case "0s":
+		nc.Spec.TerminationGracePeriod = &metav1.Duration{Duration: 0}
+	case "30s":
+		nc.Spec.TerminationGracePeriod = &metav1.Duration{Duration: 30 * time.Second}
+	}
+	if d.NoNodeName {
+		nc.Status.NodeName = ""
+	}
+}
+
+// pods binds pods to the node: a plain one (reschedulable) and one owned by a DaemonSet (not).
+func (d decor) pods(w *world, nodeName string) {
+	for k := 0; k < d.Pods; k++ {
+		p := &corev1.Pod{ObjectMeta: metav1.ObjectMeta{Name: fmt.Sprintf("pod-%s-%d", nodeName, k), Namespace: "default"},
+			Spec: corev1.PodSpec{NodeName: nodeName, Containers: []corev1.Container{{Name: "c", Image: "i"}}}}
+		if k == 1 {
+			p.OwnerReferences = []metav1.OwnerReference{{APIVersion: "apps/v1", Kind: "DaemonSet", Name: "ds", UID: "ds-uid"}}
+		}
+		w.add(p)
+	}
+}
+
 // ---------------------------------------------------------------- result classes and Gallina helpers
 
 func resClass(requeue bool, after time.Duration, err error) string {
